@@ -569,7 +569,7 @@ func (r *Run) execLib(op *OpDesc, c *Call) []*Violation {
 			}
 			st.Inc("site/misuse/" + op.Name + "/" + misuse + rc)
 		}
-		if !out.Panicked && op.Dynamic && r.copyLike(op, c, pre) {
+		if !out.Panicked && op.Dynamic && (r.copyLike(op, c, pre) || r.zeroArgsOverwritten(op, c, pre)) {
 			// an API addition that turned out to be plain copying here (exempt, like Set)
 			st.Inc("observed/dynamic_op_copy_like/" + op.Name)
 		} else if !out.Panicked {
@@ -868,10 +868,12 @@ func (r *Run) frame(op *OpDesc, c *Call, pre *Snap, ops *Operands, bPre []byte, 
 	// The receiver of a read-only method is not one of the "non-receiver
 	// arguments" the property wants bit-for-bit unchanged: an implementation may
 	// renormalise it (same value, other representation). Its value must stay.
+	// (Also when the same object is passed as an argument too, v.Equal(v): the
+	// object is the receiver.)
 	reader := !(op.Writes || op.Ctor)
 	for i, p := range w.P {
 		if i != wrP && alpha.PointLimbs(p) != pre.P[i] {
-			if reader && op.Recv == KPoint && c.R == i && !isArg(c.P, i) {
+			if reader && op.Recv == KPoint && c.R == i {
 				a, wa := pointValid(pre.P[i])
 				b, wb := pointValid(alpha.PointLimbs(p))
 				if wa == "" && wb == "" {
@@ -895,7 +897,7 @@ func (r *Run) frame(op *OpDesc, c *Call, pre *Snap, ops *Operands, bPre []byte, 
 	}
 	for i, s := range w.S {
 		if i != wrS && alpha.ScalarLimbs(s) != pre.S[i] {
-			if reader && op.Recv == KScalar && c.R == i && !isArg(c.S, i) &&
+			if reader && op.Recv == KScalar && c.R == i &&
 				alpha.ScalarVal(alpha.ScalarLimbs(s)).Cmp(alpha.ScalarVal(pre.S[i])) == 0 {
 				r.Stats.Inc("observed/reader_changed_representation_of_its_receiver/" + op.Name)
 				continue
@@ -912,7 +914,7 @@ func (r *Run) frame(op *OpDesc, c *Call, pre *Snap, ops *Operands, bPre []byte, 
 	}
 	for i, e := range w.E {
 		if !wrE[i] && alpha.ElemLimbs(e) != pre.E[i] {
-			if reader && op.Recv == KElem && c.R == i && !isArg(c.E, i) && limbsOK(alpha.ElemLimbs(e)) &&
+			if reader && op.Recv == KElem && c.R == i && limbsOK(alpha.ElemLimbs(e)) &&
 				alpha.ElemVal(alpha.ElemLimbs(e)).Cmp(alpha.ElemVal(pre.E[i])) == 0 {
 				r.Stats.Inc("observed/reader_changed_representation_of_its_receiver/" + op.Name)
 				continue
@@ -1684,4 +1686,20 @@ func (r *Run) copyLike(op *OpDesc, c *Call, pre *Snap) bool {
 		}
 	}
 	return false
+}
+
+// zeroArgsOverwritten reports whether every zero-value Point argument of a
+// call of a dynamic operation holds something else afterwards: such a
+// parameter is a destination (a second result), not an input.
+func (r *Run) zeroArgsOverwritten(op *OpDesc, c *Call, pre *Snap) bool {
+	any := false
+	for _, i := range c.P {
+		if pre.P[i].GuardedZero() {
+			if alpha.PointLimbs(r.W.P[i]) == pre.P[i] {
+				return false
+			}
+			any = true
+		}
+	}
+	return any
 }
